@@ -21,13 +21,25 @@ def parseHeld (s : String) : List Held :=
     | [c, m] => { cls := c, shared := decide (m = "r") }
     | _ => { cls := x, shared := false })
 
+/-- the per-key operations of the two backends (and the janitor's per-key callbacks), by name. -/
+def perKeyIndexSite (loc fn : String) : Bool :=
+  (loc = "MemoryCache.entries" || loc = "FileCache.entriesMetadata") &&
+  ["Cache.Get", "Cache.GetMetadata", "Cache.UpdateMetadata", "Cache.Delete", "Cache.Cache", "Cache.cacheInternal",
+   "Cache.deleteInternal", "Cache.ensureRemove", "cacheFns.removeEntry", "cacheFns.peekMetadata"].any (fun sfx => fn.endsWith sfx)
+
 def pairName (a b : String) : String := if a ≤ b then a ++ "~" ++ b else b ++ "~" ++ a
 
 def step (st : AState) (fs : List String) (_obs : String) : AState × String × String :=
   match fs with
   | ["ac", "reset"] => ({}, "ok", "ok")
   | ["ac", "site", loc, kind, fn, src, held] =>
-    ({ sites := { loc := loc, kind := kind, fn := fn, src := src, held := parseHeld held } :: st.sites }, "site", "ok")
+    let h := parseHeld held
+    -- C01 / C12 / C13: the sequential store model treats the operations on one key as atomic. That is
+    -- justified only if every per-key operation touches the key's index entry while it holds the key's
+    -- shard lock exclusively (then two operations on one key never overlap).
+    let v := if perKeyIndexSite loc fn && !(h.any (fun x => x.cls = "shard" && !x.shared))
+      then s!"bad:index-entry-used-outside-the-keys-shard-lock:{fn}" else "ok"
+    ({ sites := { loc := loc, kind := kind, fn := fn, src := src, held := h } :: st.sites }, "site", v)
   | ["ac", "pair", loc, k1, f1, s1, h1, k2, f2, s2, h2] =>
     let a : Acc := { loc := loc, kind := k1, fn := f1, src := s1, held := parseHeld h1 }
     let b : Acc := { loc := loc, kind := k2, fn := f2, src := s2, held := parseHeld h2 }
